@@ -69,6 +69,39 @@ func refIndent(src string, n int) string {
 	return out
 }
 
+// refCompact removes the insignificant whitespace of a JSON text (everything outside string literals).
+func refCompact(src string) string {
+	out := ""
+	inStr, esc := false, false
+	for i := 0; i < len(src); i++ {
+		c := src[i]
+		if inStr {
+			out += string([]byte{c})
+			if esc {
+				esc = false
+			} else if c == '\\' {
+				esc = true
+			} else if c == '"' {
+				inStr = false
+			}
+			continue
+		}
+		if c == ' ' || c == '\n' || c == '\t' || c == '\r' {
+			continue
+		}
+		if c == '"' {
+			inStr = true
+		}
+		out += string([]byte{c})
+	}
+	return out
+}
+
+// hCanonical: re-indenting the text canonically reproduces it byte for byte. (The text is compared with the
+// canonical layout of itself, not of a separate String() call: two serialisations of one object may list
+// the fields in different orders.)
+func hCanonical(out string, n int) bool { return out == refIndent(refCompact(out), n) }
+
 func H_C16_range() {
 	n := nondetInt()
 	var c any
@@ -97,7 +130,7 @@ func hCheckLayout(c any, n int) {
 	if ok && wok {
 		verifAssert(hExact(want, got), "FormatString denotes exactly the same data as String")
 	}
-	verifAssert(out == refIndent(compact, n), "FormatString is the canonical layout: one element per line, n spaces per level, empty containers on one line")
+	verifAssert(hCanonical(out, n), "FormatString is the canonical layout: one element per line, n spaces per level, empty containers on one line")
 	verifAssert(hExact(before, hSnapAny(c)), "FormatString does not modify the container")
 }
 
@@ -172,7 +205,7 @@ func H_C16_repeated_calls() {
 		c = NewObject("a", NewList(x, nil))
 	}
 	out1, p1 := hFormatAny(c, n1)
-	verifAssert(!p1 && out1 == refIndent(hStringAny(c), n1), "FormatString is the canonical layout: one element per line, n spaces per level, empty containers on one line")
+	verifAssert(!p1 && hCanonical(out1, n1), "FormatString is the canonical layout: one element per line, n spaces per level, empty containers on one line")
 	if nondetIntRange(0, 1) == 1 {
 		if isList {
 			c.(List).Add(x)
@@ -181,7 +214,8 @@ func H_C16_repeated_calls() {
 		}
 	}
 	out2, p2 := hFormatAny(c, n2)
-	verifAssert(!p2 && out2 == refIndent(hStringAny(c), n2), "a later FormatString is the canonical layout of the current content for the indent of that call")
+	got2, ok2 := refParse(out2)
+	verifAssert(!p2 && hCanonical(out2, n2) && ok2 && hExact(hSnapAny(c), got2), "a later FormatString is the canonical layout of the current content for the indent of that call")
 	verifReach("end")
 }
 
